@@ -33,6 +33,7 @@ type COptic struct {
 // CPair is handed over by the generated code for one pair of structures (property C04).
 type CPair struct {
 	ID      int
+	Build   func() // derives the isos (may panic)
 	S, T    CSide
 	MapSet  func(key string, k int) // k < 0: delete the key
 	MapSnap func(key string) int    // -1: absent
@@ -323,6 +324,10 @@ func (o *crun) run() {
 		o.r.stats["optics"]++
 		o.r.stats["optics-"+d.Kind]++
 		o.optic(oi, d, q)
+	}
+	if pn, msg := try(p.Build); pn {
+		o.r.pviol("compose-derivation-panics", p.ID, rec{"detail": "deriving the lenses of the isos panicked: " + msg})
+		return
 	}
 	o.morphisms(false)
 	o.morphisms(true)
